@@ -115,9 +115,9 @@ DoSchema == \E s \in SchemaSpecs \cup FromPolySpecs :
     /\ stage = "init" /\ MODE = "schema" /\ ValidSpec(s)
     /\ cur' = s /\ hist' = s /\ stage' = "s1"
 SliceTrees == TreesN(2, PredSet("p2a"), TermSet("t22a"), 2)
-DoSlice == \E x \in SliceTrees, mk \in {<<TRUE, FALSE>>, <<FALSE, TRUE>>}, rv \in {0, 1, -2} :
+DoSlice == \E x \in SliceTrees, mk \in {<<TRUE, FALSE>>, <<FALSE, TRUE>>}, rv \in {0, 1, -2}, pr \in BOOLEAN :
     /\ stage = "init" /\ MODE = "slice"
-    /\ cur' = [tree |-> x, mask |-> mk, ref |-> rv] /\ hist' = cur' /\ stage' = "s1"
+    /\ cur' = [tree |-> x, mask |-> mk, ref |-> rv, prune |-> pr] /\ hist' = cur' /\ stage' = "s1"
 DoNet == \E nt \in Nets :
     /\ stage = "init" /\ MODE = "distill"
     /\ cur' = nt /\ hist' = nt /\ stage' = "n1"
@@ -151,7 +151,7 @@ Emit ==
     (EMIT /\ stage' # "init") =>
         CASE MODE = "schema" -> PrintT("SCRIPT " \o ToJson([fam |-> "schema", spec |-> hist']))
           [] MODE = "slice" -> PrintT("SCRIPT " \o ToJson([fam |-> "slice", q |-> 1, lhs |-> ScriptOf(hist'.tree, 2, "dfs"), mask |-> hist'.mask,
-                                                            ref |-> <<hist'.ref, hist'.ref>>]))
+                                                            ref |-> <<hist'.ref, hist'.ref>>, prune |-> hist'.prune]))
           [] MODE = "distill" -> PrintT("SCRIPT " \o ToJson([fam |-> "distill", q |-> 12, dim |-> hist'.dim, layers |-> hist'.layers, pre |-> hist'.pre]))
           [] MODE = "arch" -> (hist'.calls # <<>> => PrintT("SCRIPT " \o ToJson([fam |-> "arch", q |-> 12, dim |-> hist'.dim, calls |-> hist'.calls])))
           [] MODE = "npz" -> PrintT("SCRIPT " \o ToJson([fam |-> "npz", q |-> 1, net |-> hist'.net, entries |-> NpzEntries(hist'.net, hist'.ext, hist'.wl)]))
